@@ -392,7 +392,13 @@ SMOOTH = ["bornmayer", "buck", "coul", "hbnd", "lj", "morse", "polynomial", "zbl
 def spline_node(draw, start_end=None):
     """spline(<start> >detach <exp_spline|buck4_spline r_min> >attach <end>) with
     twice-differentiable built-in end potentials"""
-    se = start_end or form_leaf(SMOOTH)
+    # the start and end potentials are potential definitions: usually a form, but a modifier is just as valid
+    smooth = form_leaf(SMOOTH)
+    se = start_end or st.one_of(
+        smooth, smooth, smooth,
+        st.lists(smooth, min_size=2, max_size=2).map(lambda a_: {"k": "mod", "m": "sum", "args": [_single(x) for x in a_]}),
+        st.tuples(smooth, fl(0.5, 2.0)).map(lambda t: {"k": "mod", "m": "product", "args": [
+            _single(t[0]), _single({"k": "form", "name": "constant", "p": [t[1]]})]}))
     a = draw(se)
     b = draw(se)
     kind = draw(st.sampled_from(["exp_spline", "buck4_spline"]))
